@@ -310,14 +310,28 @@ def bindTarget (env : Env) (vars : List String) (item : Val) : Except Err Env :=
     | .undef => .error .undefined
     | _ => .error .type
 
-/-- rendered text together with every interpolation made on the way: (site expression, text written) -/
+/-- an interpolation together with its position: the text rendered before it -/
+structure Site where
+  before : List Char
+  expr : Expr
+  value : List Char
+  deriving Repr
+
+/-- rendered text together with every interpolation made on the way: `slots` = (site expression,
+text written) for ALL interpolations; `sites` = the interpolations outside `{% filter %}` blocks
+together with the text rendered before them (a filter block rewrites its body as a whole, so
+positions inside it are not positions of the final text) -/
 structure Out where
   text : List Char
   slots : List (Expr × List Char)
+  sites : List Site
   deriving Repr
 
-def Out.empty : Out := ⟨[], []⟩
-def Out.append (a b : Out) : Out := ⟨a.text ++ b.text, a.slots ++ b.slots⟩
+def Site.shift (pre : List Char) (s : Site) : Site := { s with before := pre ++ s.before }
+
+def Out.empty : Out := ⟨[], [], []⟩
+def Out.append (a b : Out) : Out :=
+  ⟨a.text ++ b.text, a.slots ++ b.slots, a.sites ++ b.sites.map (Site.shift a.text)⟩
 instance : Append Out := ⟨Out.append⟩
 
 def forEach (f : Val → Except Err Out) : List Val → Except Err Out
@@ -340,10 +354,10 @@ def blockFilter (f : Filter) (s : List Char) : Except Err (List Char) :=
 mutual
 /-- one node: output and the environment afterwards (`set` is visible to what follows) -/
 def render (env : Env) : Tpl → Except Err (Out × Env)
-  | .text s => .ok (⟨s, []⟩, env)
+  | .text s => .ok (⟨s, [], []⟩, env)
   | .out e => do
     let s ← evalOut env e
-    pure (⟨s, [(e, s)]⟩, env)
+    pure (⟨s, [(e, s)], [⟨[], e, s⟩]⟩, env)
   | .ite c thn els => do
     let v ← eval env c
     if (← truthOf v) then renderL env thn else renderL env els
@@ -365,7 +379,7 @@ def render (env : Env) : Tpl → Except Err (Out × Env)
   | .filterBlock f body => do
     let r ← renderL env body
     let s ← blockFilter f r.1.text
-    pure (⟨s, r.1.slots⟩, env)
+    pure (⟨s, r.1.slots, []⟩, env)
   | .macroDef _ _ _ => .ok (Out.empty, env)
   | .callMacro _ params args body => do
     if args.length > params.length then throw .type
